@@ -432,6 +432,37 @@ func checkC34CoresServicesB(r *sim.Run, b *chainBlock, prior, post *types.State)
 			return
 		}
 	}
+	// independent evidence that a service ran in this block: every generated service program stores the items it was
+	// given (work items AND incoming transfers) under the key "in"; a changed entry means the service was invoked,
+	// so it used gas and must have a record - also when it has no work item in this block (transfer receiver)
+	kvOf := func(kvs types.StateKeyVals) map[types.StateKey]string {
+		m := make(map[types.StateKey]string, len(kvs))
+		for _, kv := range kvs {
+			m[kv.Key] = string(kv.Value)
+		}
+		return m
+	}
+	priorKV, postKV := kvOf(b.parent.kvs), kvOf(b.kvs)
+	var sids []types.ServiceID
+	for sid := range post.Delta {
+		sids = append(sids, sid)
+	}
+	sort.Slice(sids, func(i, j int) bool { return sids[i] < sids[j] })
+	for _, sid := range sids {
+		k := merklization.WrapEncodeDelta2KeyVal(sid, types.ByteSequence("in"), nil).Key
+		after, has := postKV[k]
+		if !has || after == priorKV[k] {
+			continue
+		}
+		rec, ok := post.Pi.Services[sid]
+		if !ok || rec.AccumulateGasUsed == 0 {
+			r.Violate("C34", "services", "invoked-service-without-accumulation-record", "block depth %d slot %d: service %d ran in this block (the items it stores under \"in\" changed) but its record is %+v (present=%v); %d work items accumulated for it", b.depth, b.block.Header.Slot, sid, rec, ok, accCount[sid])
+			return
+		}
+		if accCount[sid] == 0 {
+			r.Count("probe:service_invoked_without_work_item_has_record", 1)
+		}
+	}
 	for sid, w := range want {
 		if _, ok := post.Pi.Services[sid]; !ok {
 			r.Violate("C34", "services", "service-record-missing", "block depth %d slot %d: no record for service %d, reference %+v", b.depth, b.block.Header.Slot, sid, w)
